@@ -200,6 +200,9 @@ def main(modname, argv):
     pool._SIM = None
 
     cases = mod.plan(tier, seed)
+    only = os.environ.get("VERIF_ONLY")
+    if only:  # development aid: restrict to some generators
+        cases = [c for c in cases if c.get("gen") in only.split(",")]
     for r in pool.pmap(modname, "run_case", cases):
         agg.add(r)
     if agg.errors:
@@ -231,6 +234,7 @@ def main(modname, argv):
         cl2 = [v["class"] for v in (r2.get("violations") or [])]
         if cls not in cl2 or (digest and r2.get("digest") != digest):
             print("NON-REPRODUCIBLE class=%s (rerun gave %s, digest %s vs %s)" % (cls, cl2, r2.get("digest"), digest))
+            json.dump({"class": cls, "case": case}, open("/tmp/aslsim-nonrepro-%s.json" % chash(cls), "w"))
             exit_code = 2
             continue
         small = case
